@@ -139,8 +139,9 @@ Inductive out :=
 
 Inductive action :=
 | Advance (dt : Z)
-| AdvanceInCall (dt : Z)   (* the clock moves while threads are inside storage calls / between a call's
-                              effect and the code's reaction: outside the urgency assumption *)
+| AdvanceInCall (dt : Z)   (* time the code does not notice, outside the urgency assumption: the clock moves
+                              while threads are inside storage calls / between a call's effect and the code's
+                              reaction, or past due timers (late timer delivery: stall, clock jump) *)
 | ExtDelete (k : N)
 | AcqCall (p : nat) (k v : N) (d : Z)
 | InsEff (p : nat) (o : outcome)
@@ -168,9 +169,6 @@ Definition quiet_li (t : Z) (l : linfo) : bool :=
   | MRetry dl rt => llive l && (t <=? dl) && (t <=? rt)
   | _ => false
   end.
-(* a slow storage call: only the parked threads' timers bound the advance *)
-Definition slow_ok (t : Z) (l : linfo) : bool :=
-  match lph l with MWait _ | MRetry _ _ => quiet_li t l | _ => true end.
 Definition idle_part (p : part) : bool := match papi p with AIdle => true | _ => false end.
 
 (* releaseLeadership called by the goroutine of leaderInfo i (value li): LoadAndDelete, then the
@@ -198,8 +196,7 @@ Definition step (c : cfg) (s : state) (a : action) : option (state * out) :=
     if (0 <=? dt) && forallb idle_part (parts s) && forallb (quiet_li (now s + dt)) (lis s)
     then Some (set_now (now s + dt) s, ONone) else None
   | AdvanceInCall dt =>
-    if (0 <=? dt) && forallb (slow_ok (now s + dt)) (lis s)
-    then Some (set_now (now s + dt) s, ONone) else None
+    if 0 <=? dt then Some (set_now (now s + dt) s, ONone) else None
   | ExtDelete k => Some (set_stg (sdel k (stg s)) s, ONone)
   | AcqCall p k v d =>
     match nth_error (parts s) p with
